@@ -8,6 +8,6 @@ CONSTANTS
   Holders = {}
   Devs = {}
 VIEW view
-INVARIANTS AlphaBound NeverSelf AskedOnce Sorted Distinct QueryBound ContentOK Closest
+INVARIANTS AlphaBound NeverSelf AskedOnce Sorted Distinct QueryBound ContentOK Closest Drained
 PROPERTY Terminates
 CHECK_DEADLOCK FALSE
